@@ -346,3 +346,51 @@ Proof.
   induction ops as [|op tl IH]; intros ps; cbn [fold_left accepted_total]; [lia|].
   rewrite IH, api_written_step. lia.
 Qed.
+
+(* ------------------------------------------------------------------ sequence numbers (C06): along the files
+   of a session in creation order the sequence numbers strictly increase -- after ANY history of public
+   API calls and closes, every mode and layout, no hypothesis on the arguments *)
+From DRF Require Import Proofs.WriterMono.
+
+Lemma split_blocks_seq c : forall G D vec vlen w, SeqInv w -> SeqInv (snd (split_blocks c w G D vec vlen)).
+Proof.
+  induction G as [|g G IH]; intros D vec vlen w HS; [exact HS|].
+  destruct D as [|dx D]; [exact HS|]. cbn [split_blocks].
+  pose proof (sequence_numbers_increase c w [(g, 0)] (slice vec dx ((match D with d' :: _ => d' | [] => vlen end) - dx)) HS) as H1.
+  change (write_blocks c w [(g, 0)] ?v) with (write_one c w g v) in H1.
+  destruct (write_one c w g _) as [rc w'] eqn:E. cbn [snd] in H1.
+  destruct (negb (rc =? 0)); [exact H1|]. apply IH. exact H1.
+Qed.
+
+Lemma api_state_seq c ps op : SeqInv (p_w ps) -> SeqInv (p_w (api_state c ps op)).
+Proof.
+  intros HS. unfold api_state. destruct op as [ns vec|G D vec]; cbn [api_call].
+  - unfold py_rf_write.
+    destruct (_ <? p_next ps); [exact HS|]. destruct (p_closed ps); [exact HS|].
+    pose proof (sequence_numbers_increase c (p_w ps) [(match ns with Some x => x | None => p_next ps end, 0)] vec HS) as H1.
+    change (write_blocks c (p_w ps) [(?g, 0)] vec) with (write_one c (p_w ps) g vec) in H1.
+    destruct (write_one c (p_w ps) _ vec) as [rc w']. cbn [snd] in H1. destruct (negb (rc =? 0)); exact H1.
+  - unfold py_rf_write_blocks.
+    destruct G as [|g0 G']; [exact HS|]. destruct D as [|d0 D']; [exact HS|].
+    repeat match goal with
+           | |- context [if ?b then _ else _] =>
+             lazymatch b with
+             | negb (_ =? 0) && _ => fail
+             | c_cont c && _ => fail
+             | _ => destruct b; [exact HS|]
+             end
+           end.
+    all: try exact HS.
+    assert (H1 : SeqInv (snd (if c_cont c && (1 <? Z.of_nat (length (g0 :: G')))
+                              then split_blocks c (p_w ps) (g0 :: G') (d0 :: D') vec (Z.of_nat (length vec))
+                              else write_blocks c (p_w ps) (combine (g0 :: G') (d0 :: D')) vec))).
+    { destruct (c_cont c && _); [apply split_blocks_seq; exact HS|apply sequence_numbers_increase; exact HS]. }
+    destruct (if c_cont c && _ then _ else _) as [rc w']. cbn [snd] in H1. destruct (negb (rc =? 0)); exact H1.
+Qed.
+
+Theorem api_sequence_numbers c ops : SeqInv (p_w (fold_left (api_state c) ops py_init)).
+Proof.
+  assert (G : forall ps, SeqInv (p_w ps) -> SeqInv (p_w (fold_left (api_state c) ops ps))).
+  { induction ops as [|op ops IH]; intros ps HS; cbn [fold_left]; [exact HS|]. apply IH. apply api_state_seq. exact HS. }
+  apply G. exact I.
+Qed.
